@@ -15,6 +15,32 @@ use crate::{
     },
 };
 
+/// Awaits all the futures concurrently and returns their results in the order of the futures,
+/// or the first error as soon as any of the futures fails.
+///
+/// `futures::future::try_join_all` only has that last property for up to 30 futures from an
+/// iterator with an exact size hint; otherwise it hands out results in order, so an error (the
+/// cancellation value) is held back until all futures before it have finished.
+pub(crate) async fn try_join_all_eager<T, E, F>(
+    futures: impl IntoIterator<Item = F>,
+) -> Result<Vec<T>, E>
+where
+    F: std::future::Future<Output = Result<T, E>>,
+{
+    use futures::{StreamExt, stream::FuturesUnordered};
+
+    let mut pending: FuturesUnordered<_> = futures
+        .into_iter()
+        .enumerate()
+        .map(|(index, future)| async move { (index, future.await) })
+        .collect();
+    let mut results: Vec<Option<T>> = (0..pending.len()).map(|_| None).collect();
+    while let Some((index, result)) = pending.next().await {
+        results[index] = Some(result?);
+    }
+    Ok(results.into_iter().flatten().collect())
+}
+
 /// Keeps a cache of previously computed and/or requested information about
 /// solvables and version sets.
 pub struct SolverCache<D: DependencyProvider> {
@@ -298,7 +324,7 @@ impl<D: DependencyProvider> SolverCache<D> {
                 match self.requirement_to_sorted_candidates.get(&requirement) {
                     Some(candidates) => Ok(candidates),
                     None => {
-                        let sorted_candidates = futures::future::try_join_all(
+                        let sorted_candidates = try_join_all_eager(
                             self.provider()
                                 .version_sets_in_union(version_set_union_id)
                                 .map(|version_set_id| {
